@@ -1161,6 +1161,70 @@ theorem blind_rotation_block_scratch_independent {Val : Type} (block : Nat) (acc
 example : (run (progBlindRotationBlock 2 (5 : Int) 0 (fun i a => a + i) (fun _ a t => a * t) (fun i r => r - i) (fun s x r => s + x - r)
     (· * 2) (· + 1) (fun b => (b, 7)) (· + ·)) (fun _ => 1234)).1 = 6 := by decide
 
+/-! ### the shift / normalise family: which zero fill is needed on which path
+
+Cell 0 = the carry buffer, cell 1 = the spare limb.  Footprint per path (read off poulpy-cpu-ref/src/reference/vec_znx/shift.rs,
+normalize.rs and reference/ntt120/vec_znx_big.rs):
+* at least one limb of the operand discarded (`nOut > 0`): `first_step_carry_only` **writes** the carry, the further
+  `middle_step_carry_only` read then write it — no zero fill needed;
+* no limb discarded (`nOut = 0`: the operand is not longer than the destination, **or it is longer but fits again after the
+  limb shift**, `res.size < a.size ≤ res.size + k / base2k`): nothing has written the carry, the first `middle_step` reads
+  it — `znx_zero(carry)` is what makes the program write-before-read;
+* operand entirely below the destination (`gap > 0`, right shifts and normalisations only): the gap steps read the spare limb —
+  `znx_zero(zero)` is needed, and only there. -/
+
+/-- the left shifts (`vec_znx_lsh`, `_add_into`, `_sub`, `glwe_lsh`, `glwe_lsh_add`, `glwe_lsh_sub`) and the right shifts /
+equal-radix normalisations (`vec_znx_rsh`, `_add_into`, `_sub`, `_assign`, `vec_znx_normalize`, `vec_znx_big_normalize*`), as in
+the library (both zero fills present): the result does not depend on what the scratch held -/
+theorem shift_family_scratch_independent {Val : Type} (nOut gap work : Nat) (zero : Val) (firstCO : Nat → Val) (midCO : Nat → Val → Val)
+    (gapStep : Val → Val → Val) (step : Nat → Val → Val × Val) (m m' : Nat → Val) :
+    (run (progLsh true nOut work zero firstCO midCO step) m).1 = (run (progLsh true nOut work zero firstCO midCO step) m').1 ∧
+    (run (progRsh true true nOut gap work zero firstCO midCO gapStep step) m).1 =
+      (run (progRsh true true nOut gap work zero firstCO midCO gapStep step) m').1 :=
+  ⟨write_before_read_independent _ (wbr_lsh nOut work zero firstCO midCO step true (fun _ => rfl)) m m',
+   write_before_read_independent _ (wbr_rsh nOut gap work zero firstCO midCO gapStep step true true (fun _ => rfl) (fun _ => rfl)) m m'⟩
+
+example : (run (progLsh true 0 2 (0 : Int) (fun j => j) (fun _ c => c + 1) (fun j c => (c + j, c + 10))) (fun _ => 777)).1 = [10, 1] ∧
+    (run (progRsh true true 0 2 1 (0 : Int) (fun j => j) (fun _ c => c + 1) (fun z c => z + c + 5) (fun _ c => (c, c))) (fun _ => 777)).1 = [10] := by
+  decide
+
+/-- the zero fill of the carry is needed **exactly** on the path without discarded limbs: with it the program is write-before-read
+on every path; without it, it still is when a limb is discarded, and it is not when none is and a limb goes through the carry -/
+theorem lsh_carry_zero_fill_needed_exactly {Val : Type} (nOut minSize : Nat) (zero : Val) (firstCO : Nat → Val) (midCO : Nat → Val → Val)
+    (step : Nat → Val → Val × Val) :
+    WBR [] (progLsh true nOut minSize zero firstCO midCO step) ∧
+    (0 < nOut → WBR [] (progLsh false nOut minSize zero firstCO midCO step)) ∧
+    ¬ WBR [] (progLsh false 0 (minSize + 1) zero firstCO midCO step) :=
+  ⟨wbr_lsh nOut minSize zero firstCO midCO step true (fun _ => rfl),
+   fun h => wbr_lsh nOut minSize zero firstCO midCO step false (fun h0 => absurd h0 (by omega)),
+   not_wbr_lsh_without_zero_fill minSize zero firstCO midCO step⟩
+
+example : WBR [] (progLsh false 2 1 (0 : Int) (fun j => j) (fun _ c => c) (fun _ c => (c, c))) := by
+  simp [progLsh, carryPhase, carrySteps, loopN, Prog.bind, WBR]
+
+/-- the seeded change to `vec_znx_lsh_sub` (`if a_size > res_size { carry-only loop } else { zero(carry) }`) is the program with
+`zeroCarry := !(a_size > res_size)`; when the operand is longer but fits again after the limb shift (`nOut = 0`) the result depends on
+the previous contents of the scratch -/
+theorem lsh_sub_seeded_change_scratch_dependent :
+    let aGtRes := true
+    let p := progLsh (!aGtRes) 0 1 (0 : Int) (fun j => j) (fun _ c => c) (fun _ c => (1000 - c, c))
+    (run p (fun _ => 0)).1 ≠ (run p (fun _ => 7)).1 := by
+  decide
+
+/-- right shifts and normalisations: both zero fills are needed on their paths (the carry as for the left shifts; the spare limb when the
+operand lies entirely below the destination) -/
+theorem rsh_normalize_zero_fills_needed {Val : Type} (nOut gap work : Nat) (zero : Val) (firstCO : Nat → Val) (midCO : Nat → Val → Val)
+    (gapStep : Val → Val → Val) (step : Nat → Val → Val × Val) :
+    (∀ zc zs : Bool, (nOut = 0 → zc = true) → (gap ≠ 0 → zs = true) →
+      WBR [] (progRsh zc zs nOut gap work zero firstCO midCO gapStep step)) ∧
+    ¬ WBR [] (progRsh true false (nOut + 1) (gap + 1) work zero firstCO midCO gapStep step) :=
+  ⟨fun zc zs hz hs => wbr_rsh nOut gap work zero firstCO midCO gapStep step zc zs hz hs,
+   not_wbr_rsh_without_spare_zero_fill nOut gap work zero firstCO midCO gapStep step⟩
+
+example : (run (progRsh true false 1 1 1 (0 : Int) (fun j => j) (fun _ c => c) (fun z c => z + c) (fun _ c => (c, c))) (fun _ => 0)).1 ≠
+    (run (progRsh true false 1 1 1 (0 : Int) (fun j => j) (fun _ c => c) (fun z c => z + c) (fun _ c => (c, c))) (fun _ => 9)).1 := by
+  decide
+
 end contents
 
 end C12
